@@ -4,8 +4,11 @@ Protocol (model name `cal`; days are datetime.toordinal() numbers, plain integer
   (cal new t0 t1 (L weekend*) (L holiday*) adj)   Calendar(None, holidays, weekend, t0, t1, adj) becomes the current calendar
   (cal newd ...)                                   the same, the holidays handed over as datetime.date objects (even positions) and
                                                    as datetimes with a time of day (odd positions): a holiday is a DAY
+  (cal newt ...)                                   the same, the range endpoints handed over with a time of day (t0 at 09:00, t1 at 17:30;
+                                                   `calendar('X', hols, t0 = datetime.now())`): a range endpoint is a DAY (defect C05-D3)
   (cal reg <key> hol|N weekend|N t0|N t1|N)        calendar(key, ...) through the module registry; reply describes the calendar
   (cal isb t) (cal ishol t) (cal adjust a t) (cal add a t n) (cal bump a t n) (cal bdays a x y) (cal drange x y b)
+  (cal clock t)                                    Calendar.clock(t): the table index of adjust(t) (observe_at lists `clock`)
   (cal ymd n)                                      the model's Gregorian arithmetic against datetime
 `a` is f|p|m or d (= None: the calendar's own convention).
 """
@@ -22,7 +25,7 @@ TRUSTED = ['correspondence harness (pv.engine, pv.proto) and generators of pv.pr
            'Lean driver parser/printer (PygModel/Basic.lean, CalendarDriver.lean)']
 ASSUMPTIONS = ['dateutil.rrule(DAILY, dtstart, until, byweekday) enumerates every day of [t0, t1] whose weekday is listed, in increasing order',
                'datetime: toordinal/fromordinal/weekday/month agree with the closed-form Gregorian arithmetic of PygModel/Civil.lean (sampled by the ymd op)',
-               'all dates handed to the calendar are midnight datetimes; trade_date / is_trading / clock (intraday) are not modelled',
+               'all dates handed to the calendar are midnight datetimes; trade_date / is_trading (intraday) are not modelled',
                'a weekend that covers all seven weekdays (adjust never returns) is not generated']
 
 D = datetime.datetime
@@ -228,13 +231,18 @@ def interesting_days(rng, cal, count):
     return sorted(list(must) + days[:max(0, count - len(must))])
 
 
-KINDS = {3: 'longrun', 7: 'outside', 17: 'outside', 11: 'dates'}    # calendar index mod 20 -> class (else 'std')
+KINDS = {3: 'longrun', 7: 'outside', 17: 'outside', 11: 'dates', 13: 'tod'}    # calendar index mod 20 -> class (else 'std')
 
 
-def new_line(cal, scalar_weekend=False, dates=False):
+def new_line(cal, scalar_weekend=False, dates=False, tod=False):
     t0, t1, weekend, hol, adj = cal
     we = '%d' % weekend[0] if scalar_weekend and len(weekend) == 1 else ilist(weekend)
-    return '(cal %s %d %d %s %s %s)' % ('newd' if dates else 'new', t0, t1, we, ilist(hol), adj)
+    return '(cal %s %d %d %s %s %s)' % ('newd' if dates else 'newt' if tod else 'new', t0, t1, we, ilist(hol), adj)
+
+
+def tod_range(t0, t1):
+    """the range endpoints of a `newt` line as the caller's objects: datetimes with a time of day"""
+    return fo(t0) + datetime.timedelta(hours=9), fo(t1) + datetime.timedelta(hours=17, minutes=30)
 
 
 def as_dates(hol):
@@ -254,7 +262,7 @@ def generate(rng, tier):
     yield dict(tag='civil', lines=lines)
     for ci in range(ncal):
         kind = KINDS.get(ci % 20, 'std')
-        cal = rand_calendar(rng, tier, 'std' if kind == 'dates' else kind)
+        cal = rand_calendar(rng, tier, 'std' if kind in ('dates', 'tod') else kind)
         t0, t1, weekend, hol, adj = cal
         nv = Naive(*cal)
         dens = len(hol) / float(t1 - t0 + 1)
@@ -262,7 +270,7 @@ def generate(rng, tier):
                                             '0' if not hol else '<5%' if dens < 0.05 else '<15%' if dens < 0.15 else '>=15%')
         if kind != 'std':
             tag = 'cal %s we=%s adj=%s' % (kind, ''.join(map(str, weekend)) or '-', adj)
-        lines = [new_line(cal, scalar_weekend=(ci % 2 == 0), dates=(kind == 'dates'))]
+        lines = [new_line(cal, scalar_weekend=(ci % 2 == 0), dates=(kind == 'dates'), tod=(kind == 'tod'))]
         for t in interesting_days(rng, cal, ndays):
             lines.append('(cal isb %d)' % t)
             lines.append('(cal ishol %d)' % t)
@@ -285,6 +293,7 @@ def generate(rng, tier):
                 lines.append('(cal bump %s %d %d)' % (a, t, n))
             u = min(max(t + rng.randrange(-60, 61), t0), t1)
             lines.append('(cal bdays %s %d %d)' % (rng.choice('dfpm'), t, u))
+            lines.append('(cal clock %d)' % t)
             u = min(t + rng.choice([0, 1, 2, 5, 9, 20, 40]), t1)
             r = rng.random()
             if r < 0.7:
@@ -391,13 +400,14 @@ def run_line(state, sx):
     if op == 'ymd':
         t = fo(int(args[0]))
         return 'ok (T I:%d I:%d I:%d I:%d)' % (t.year, t.month, t.day, t.weekday())
-    if op in ('new', 'newd'):
+    if op in ('new', 'newd', 'newt'):
         t0, t1 = int(args[0]), int(args[1])
         weekend = [int(x) for x in args[2][1:]] if isinstance(args[2], list) else int(args[2])   # a scalar: weekend = 6
         hol = [fo(int(x)) for x in args[3][1:]]
         if op == 'newd':
             hol = as_dates([int(x) for x in args[3][1:]])
-        state['cal'] = Calendar(None, holidays=hol, weekend=weekend, t0=fo(t0), t1=fo(t1), adj=args[4])
+        T0, T1 = tod_range(t0, t1) if op == 'newt' else (fo(t0), fo(t1))
+        state['cal'] = Calendar(None, holidays=hol, weekend=weekend, t0=T0, t1=T1, adj=args[4])
         return 'ok N'
     if op == 'reg':
         c = calendar(*reg_args(args))
@@ -418,6 +428,8 @@ def run_line(state, sx):
         return 'ok I:%d' % to(c.add(fo(int(args[1])), int(args[2]), adj=_adj(args[0])))
     if op == 'bump':
         return 'ok I:%d' % to(c.dt_bump(fo(int(args[1])), '%db' % int(args[2]), adj=_adj(args[0])))
+    if op == 'clock':
+        return 'ok I:%d' % c.clock(fo(int(args[0])))
     if op == 'bdays':
         return 'ok I:%d' % c.bdays(fo(int(args[1])), fo(int(args[2])), adj=_adj(args[0]))
     if op == 'drange':
@@ -482,8 +494,10 @@ def _laws(rng, tier, ctx):
         t0, t1, weekend, hol, adj = cal
         nv = Naive(*cal)
         dates = li % 10 == 8     # holidays as datetime.date / with a time of day
-        c = Calendar(None, holidays=as_dates(hol) if dates else [fo(h) for h in hol], weekend=list(weekend), t0=fo(t0), t1=fo(t1), adj=adj)
-        nl = new_line(cal, dates=dates)
+        tod = li % 10 == 6       # range endpoints with a time of day
+        T0, T1 = tod_range(t0, t1) if tod else (fo(t0), fo(t1))
+        c = Calendar(None, holidays=as_dates(hol) if dates else [fo(h) for h in hol], weekend=list(weekend), t0=T0, t1=T1, adj=adj)
+        nl = new_line(cal, dates=dates, tod=tod)
 
         def bad(tag, lines, msg):
             return Finding('violation', dict(tag='law-' + tag, lines=[nl] + lines), msg)
@@ -524,6 +538,20 @@ def _laws(rng, tier, ctx):
                 got = call(lambda: c.adjust(T, a))
                 if got != fo(want):
                     yield bad('adjust', ['(cal adjust %s %d)' % (a, t)], "adjust(%s,'%s') = %s, nearest business day by counting is %s" % (T, a, got, fo(want)))
+            # the single-step path returns THE next / previous business day counted from adjust(t) - for every t, also when that day lies
+            # beyond the range end (no guard: theorems add_one_next / add_one_prev); "business day" by the weekend/holiday test itself
+            s0 = call(lambda: c.adjust(T))
+            if isinstance(s0, datetime.datetime):
+                for sgn in (1, -1):
+                    count += 1
+                    r = call(lambda: c.add(T, sgn))
+                    if not isinstance(r, datetime.datetime) or r != D(r.year, r.month, r.day):
+                        yield bad('add-one', ['(cal add d %d %d)' % (t, sgn)], 'add(%s, %d) = %s' % (T, sgn, r))
+                        continue
+                    a, b = to(s0), to(r)
+                    if not (nv.isb(b) and (b - a) * sgn > 0 and not any(nv.isb(x) for x in range(min(a, b) + 1, max(a, b)))):
+                        yield bad('add-one', ['(cal add d %d %d)' % (t, sgn)], 'add(%s, %d) = %s is not the %s business day counted from adjust(t) = %s'
+                                  % (T, sgn, r, 'next' if sgn > 0 else 'previous', s0))
             a0 = nv.adjust(t)
             if not nv.in_range(a0) or not nv.isb(a0):
                 continue
@@ -536,6 +564,9 @@ def _laws(rng, tier, ctx):
                 if got != fo(want):
                     yield bad('add-nth', ['(cal add d %d %d)' % (t, n)], 'add(%s, %d) = %s, the %d-th business day from adjust(t) is %s' % (T, n, got, n, fo(want)))
                     continue
+                ck = call(lambda: c.clock(got) - c.clock(T))     # clock = the position in the business-day table: it advances by n
+                if ck != n:
+                    yield bad('clock', ['(cal add d %d %d)' % (t, n), '(cal clock %d)' % t, '(cal clock %d)' % want], 'clock(add(t, %d)) - clock(t) = %s' % (n, ck))
                 k = call(lambda: c.bdays(T, got))
                 if k != n:
                     yield bad('bdays-add', ['(cal add d %d %d)' % (t, n), '(cal bdays d %d %d)' % (t, want)], 'bdays(t, add(t, %d)) = %s' % (n, k))
